@@ -65,6 +65,23 @@ fn main() {
             // a re-solve from the previous result (for contradictory systems: from the compromise)
             sys = with_resolve(sys);
         }
+        if i % 3 == 1 {
+            // explicit angles re-expressed up front (other unit, whole turns added or removed: 450deg,
+            // -270deg, 7.85rad ...): the geometric verdict check below then runs on angles outside
+            // atan2's range as well ("angles are understood modulo a full turn")
+            sys.reqs = sys
+                .reqs
+                .iter()
+                .map(|r| {
+                    let c = match r.constraint() {
+                        Constraint::LinesAtAngle(a, b, AngleKind::Other(ang)) => Constraint::LinesAtAngle(*a, *b, AngleKind::Other(reexpress(&mut rng, ang))),
+                        Constraint::ArcAngle(a, ang) => Constraint::ArcAngle(*a, reexpress(&mut rng, ang)),
+                        c => *c,
+                    };
+                    ConstraintRequest::new(c, r.priority())
+                })
+                .collect();
+        }
         systems += 1;
         for analysis in [false, true] {
             let res = if analysis {
